@@ -69,6 +69,37 @@ def setup():
         random = _Random
 
         @staticmethod
+        def argsort(a, axis=-1, kind=None, order=None, stable=None):
+            """np.argsort: only kind='stable' / 'mergesort' (or stable=True) promises to keep equal keys in their original order;
+            otherwise equal keys may come out in ANY order (NumPy's default sort happens to be stable below 17 elements only)"""
+            base = np.asarray(arrays.sym_argsort(a) if arrays.has_sym(np.asarray(arrays._plain(a), dtype=object)) else np.argsort(np.asarray(a), kind="stable"), dtype=int)
+            if kind in ("stable", "mergesort") or stable:
+                return base
+            A = np.asarray(arrays._plain(a), dtype=object)
+            keys = [A[i] for i in base.tolist()]
+            ctx = core.cur()
+            out, i = [], 0
+            while i < len(base):
+                j = i + 1
+                while j < len(base) and bool(core.eq(keys[j], keys[i])):
+                    j += 1
+                run = base[i:j].tolist()
+                if len(run) > 1:
+                    if len(run) > 3:
+                        raise core.Unsupported("argsort with more than three equal keys in the unstable-order model")
+                    picks = []
+                    for _ in run:
+                        k_ = SInt(ctx.fresh_int("tie"))
+                        ctx.assume(and_(k_ >= 0, k_ < len(run)))
+                        for q in picks:
+                            ctx.assume(not_(core.eq(k_, q)))
+                        picks.append(int(k_))
+                    run = [run[q] for q in picks]
+                out.extend(run)
+                i = j
+            return np.array(out, dtype=np.int64)
+
+        @staticmethod
         def save(file, arr, **k):
             F = fakefs.fs()
             f = F.files.setdefault(str(file), fakefs.File(False))
@@ -591,6 +622,22 @@ for seed in range(4):
     if bad: break
 print(bad)
 if bad: reproduced(str(bad)[:600])
+# the witness has only a few waveforms; NumPy's default sort is only incidentally stable below 17 elements, so an order left to an
+# unstable sort shows on a larger instance of the same situation (interleaved units, several waveforms each)
+ns2 = 6000; rs2 = np.random.default_rng(1)
+data2 = rs2.integers(-3000, 3000, size=(ns2, nc)).astype(np.int16)
+(d / 'x.imec0.ap.meta').write_text(sglx.imec_meta_text('3B2', [(0, i % 2, i // 2) for i in range(nsites)], gains=[(500, 250)] * nsites, ns=format(ns2 / 30000.0, '.12f'), fs_hz='30000', file_size=ns2 * nc * 2))
+data2.tofile(d / 'x.imec0.ap.bin')
+sr2 = spikeglx.Reader(d / 'x.imec0.ap.bin')
+smp2 = np.sort(rs2.choice(np.arange(20, ns2 - 20), 120, replace=False)); cl2 = np.arange(120) % 3; ch2 = rs2.integers(0, nsites, 120)
+out2 = d / 'out2'; out2.mkdir()
+we.extract_wfs_cbin(d / 'x.imec0.ap.bin', out2, smp2, cl2, ch2, h=geom, max_wf=40, trough_offset=offset, spike_length_samples=length, chunksize_samples=1500, n_jobs=1, preprocess_steps=[], seed=0)
+tr2 = np.load(out2 / 'waveforms.traces.npy'); tb2 = pd.read_parquet(out2 / 'waveforms.table.pqt'); cm2 = np.load(out2 / 'waveforms.channels.npz')['channels']
+full2 = np.vstack([sr2[:, :nsites].T, np.full((1, ns2), np.nan)]).astype(np.float32)
+S2 = tb2['sample'].to_numpy(); P2 = tb2['peak_channel'].to_numpy(); W2 = tb2['waveform_index'].to_numpy()
+wrong = [r for r in range(len(tb2)) if W2[r] != r or not np.array_equal(tr2[r], full2[nbr[P2[r]]][:, S2[r] - offset: S2[r] - offset + length], equal_nan=True) or not np.array_equal(cm2[r], nbr[P2[r]])]
+print('larger instance: rows that do not agree', len(wrong), 'of', len(tb2))
+if wrong: reproduced(f'{{len(wrong)}} of {{len(tb2)}} rows of table / traces / channel map do not describe the same waveform (120 spikes of 3 interleaved units)')
 not_reproduced()
 """
     if case.startswith("chunk"):
